@@ -156,8 +156,8 @@ def tag_block(content):
 
 
 def gatehouse(y=2020, mo=1, d=2, h=3, mi=4, s=5, ms=6, country=b'219', region=b'219000001', pss=b'219000002',
-              online=b'1', cc=b'6D'):
-    body = b'PGHP,1,%d,%d,%d,%d,%d,%d,%d,%s,%s,%s,%s,%s' % (y, mo, d, h, mi, s, ms, country, region, pss, online, cc)
+              online=b'1', cc=b'6D', tag=b'PGHP'):
+    body = b'%s,1,%d,%d,%d,%d,%d,%d,%d,%s,%s,%s,%s,%s' % (tag, y, mo, d, h, mi, s, ms, country, region, pss, online, cc)
     return b'$' + body + b'*' + ('%02X' % nmea_checksum(body)).encode()
 
 
